@@ -23,9 +23,22 @@ uint64_t w_externalGetQuick(const uint8_t *src, varintWidth w) { uint64_t r; var
 uint64_t w_externalGetQuickMedium(const uint8_t *src, varintWidth w) { uint64_t r; varintExternalGetQuickMedium_(src, w, r); return r; }
 uint64_t w_externalGetQuickMediumRV(const uint8_t *src, varintWidth w) { return varintExternalGetQuickMediumReturnValue_(src, w); }
 
-/* ---- split ---- */
-varintWidth w_splitPut(uint8_t *dst, uint64_t v) { uint8_t len; varintSplitPut_(dst, len, v); return len; }
-varintWidth w_splitLen(uint64_t v) { uint8_t len; varintSplitLength_(len, v); return len; }
-varintWidth w_splitGetLenQuick(const uint8_t *p) { return varintSplitGetLenQuick_(p); }
-varintWidth w_splitGetLen(const uint8_t *p) { uint8_t len; varintSplitGetLen_(p, len); return len; }
-uint64_t w_splitGet(const uint8_t *p, uint8_t *lenOut) { uint8_t len; uint64_t v; varintSplitGet_(p, len, v); *lenOut = len; return v; }
+/* ---- split families ---- */
+#define W_FAMILY(N, P)                                                                                         \
+    varintWidth w_##N##Put(uint8_t *dst, uint64_t v) { uint8_t len; P##Put_(dst, len, v); return len; }          \
+    varintWidth w_##N##Len(uint64_t v) { uint8_t len; P##Length_(len, v); return len; }                          \
+    varintWidth w_##N##GetLenQuick(const uint8_t *p) { return P##GetLenQuick_(p); }                              \
+    varintWidth w_##N##GetLen(const uint8_t *p) { uint8_t len; P##GetLen_(p, len); return len; }                 \
+    uint64_t w_##N##Get(const uint8_t *p, uint8_t *lenOut) { uint8_t len; uint64_t v; P##Get_(p, len, v); *lenOut = len; return v; }
+#define W_FAMILY_REV(N, P)                                                                                     \
+    varintWidth w_##N##RevPutRev(uint8_t *dst, uint64_t v) { uint8_t len; P##ReversedPutReversed_(dst, len, v); return len; } \
+    varintWidth w_##N##RevPutFwd(uint8_t *dst, uint64_t v) { uint8_t len; P##ReversedPutForward_(dst, len, v); return len; }  \
+    uint64_t w_##N##RevGet(const uint8_t *p, uint8_t *lenOut) { uint8_t len; uint64_t v; P##ReversedGet_(p, len, v); *lenOut = len; return v; }
+
+W_FAMILY(split, varintSplit)
+W_FAMILY_REV(split, varintSplit)
+W_FAMILY(splitFull, varintSplitFull)
+W_FAMILY_REV(splitFull, varintSplitFull)
+W_FAMILY(splitFullNoZero, varintSplitFullNoZero)
+W_FAMILY_REV(splitFullNoZero, varintSplitFullNoZero)
+W_FAMILY(splitFull16, varintSplitFull16)
